@@ -233,8 +233,12 @@ func (server *SugarDB) setValues(ctx context.Context, entries map[string]interfa
 
 	for key, value := range entries {
 		expireAt := time.Time{}
-		if _, ok := server.store[database][key]; ok {
-			expireAt = server.store[database][key].ExpireAt
+		if entry, ok := server.store[database][key]; ok {
+			expireAt = entry.ExpireAt
+			// A new value does not inherit the expiry time of an entry that has already expired.
+			if expireAt != (time.Time{}) && expireAt.Before(server.clock.Now()) {
+				expireAt = time.Time{}
+			}
 		}
 		server.store[database][key] = internal.KeyData{
 			Value:    value,
